@@ -48,7 +48,8 @@ Check == Done =>
   IN /\ Allowed(NoDev) \/ Say(tid, IF Allowed([stale |-> TRUE, nokw |-> FALSE]) THEN "ref-dev-stale"
                                    ELSE IF Allowed([stale |-> FALSE, nokw |-> TRUE]) THEN "ref-dev-nokw"
                                    ELSE IF Allowed(CodeDev) THEN "ref-dev-both"
-                                   ELSE IF EnvReqDeviation /\ ~o.ok THEN "ref-dev-envreq" ELSE "ref")
+                                   ELSE IF EnvReqDeviation /\ ~o.ok THEN "ref-dev-envreq"
+                                   ELSE IF EmptyDictDeviation /\ ~o.ok THEN "ref-dev-emptydict" ELSE "ref")
      /\ (p = AlgParsed) \/ Say(tid, "alg")
      /\ (o.ok /\ o.inst = "ok") => (LogOK(FamOf(cs), o.v, o.log, o.root, o.rtype) \/ Say(tid, "ref-log"))
      /\ (o.ok /\ o.inst = "raise") => Say(tid, IF Unchecked(FamOf(cs), o.v) THEN "ref-inst-raise-nokw" ELSE "ref-inst-raise")
